@@ -290,6 +290,15 @@ fn gen_pattern(rng: &mut Rng, wellformed: bool) -> P {
     } else {
         None
     };
+    if !wellformed && rng.chance(1, 12) {
+        // a second parameter whose name is a different spelling of an existing one
+        if let Some(n) = used.first().cloned() {
+            let v = pct_variant(rng, &n);
+            if !used.contains(&v) {
+                segs.push(S::Par(v));
+            }
+        }
+    }
     let mut p = P { scheme, absolute: rng.chance(4, 5), segs };
     // a relative pattern whose first literal starts with a letter and has a ':' would read as a scheme: the text decides
     if p.scheme.is_none() && !p.absolute {
